@@ -156,3 +156,46 @@ Proof.
   apply (dispatch_mapped d text _ (str v) v i Hnd Hg (Ht v) Hin).
 Qed.
 End UnionProofs.
+
+(** * Additional properties of a union: each key is decoded on its own *)
+Section Addl.
+Variable jv : Type.
+Lemma put_absent (k : string) (v : jv) m : ~ In k (map fst m) -> put jv k v m = m ++ [(k, v)].
+Proof.
+  induction m as [|[k' v'] m IH]; simpl; intro H; [reflexivity|].
+  destruct (String.eqb k' k) eqn:E.
+  - apply String.eqb_eq in E. exfalso. apply H. left. exact E.
+  - f_equal. apply IH. intro Hin. apply H. right. exact Hin.
+Qed.
+
+Lemma overlay_disjoint : forall (text acc : jobj jv),
+  NoDup (map fst text) -> (forall k, In k (map fst text) -> ~ In k (map fst acc)) -> overlay jv acc text = acc ++ text.
+Proof.
+  induction text as [|[k v] text IH]; intros acc Hnd Hdis; unfold overlay in *; simpl.
+  - rewrite app_nil_r. reflexivity.
+  - inversion Hnd as [|? ? Hk Hnd']. subst.
+    rewrite put_absent by (apply Hdis; left; reflexivity).
+    rewrite IH; [rewrite <- app_assoc; reflexivity|exact Hnd'|].
+    intros k' Hin Hacc. rewrite map_app in Hacc. apply in_app_or in Hacc. destruct Hacc as [Hacc|Hacc].
+    + apply (Hdis k'); [right; exact Hin|exact Hacc].
+    + simpl in Hacc. destruct Hacc as [<-|[]]. apply Hk. exact Hin.
+Qed.
+
+(** decoded key by key into a fresh variable, the additional members are the document's: nothing is carried over *)
+Theorem decode_fresh_exact (residual : list (string * jobj jv)) :
+  (forall kv, In kv residual -> NoDup (map fst (snd kv))) -> decode_fresh jv residual = residual.
+Proof.
+  induction residual as [|[k v] r IH]; intro H; [reflexivity|].
+  unfold decode_fresh in *. cbn [map fst snd]. f_equal.
+  - f_equal. unfold decode_into. rewrite overlay_disjoint; [reflexivity|apply (H (k, v)); left; reflexivity|intros ? _ []].
+  - apply IH. intros kv Hin. apply H. right. exact Hin.
+Qed.
+End Addl.
+
+(** one variable for all keys: a key's value inherits the members the key before it had *)
+Theorem decode_shared_refuted :
+  let doc := [("from", [("x", 1); ("label", 7)]); ("to", [("y", 2)]); ("origin", [])] in
+  decode_fresh nat doc = doc
+  /\ decode_shared nat [] doc = [("from", [("x", 1); ("label", 7)]); ("to", [("x", 1); ("label", 7); ("y", 2)]);
+                                  ("origin", [("x", 1); ("label", 7); ("y", 2)])].
+Proof. vm_compute. split; reflexivity. Qed.
